@@ -86,6 +86,11 @@ Step(st, ev) ==
                     [] ev.op = "pt.SetCompressedBytes" -> DecodeCompressedB(b)
                     [] OTHER -> DecodeUncompressedB(b)
          IN  IF d[1] = "ok" THEN Ok(SetPt(st, ev.v, d[2])) ELSE Err(st)          \* failed decode: receiver exactly as it was
+    [] ev.op = "pt.NewFromBytes" ->     \* constructor: a FRESH object replaces the slot's object (or nothing happens on error)
+         LET d == DecodeB(st.buf[ev.b]) IN IF d[1] = "ok" THEN Ok(SetPt(st, ev.v, d[2])) ELSE Err(st)
+    [] ev.op = "pt.NewIdentity"  -> Ok(SetPt(st, ev.v, Inf))
+    [] ev.op = "pt.NewGenerator" -> Ok(SetPt(st, ev.v, GenPt))
+    [] ev.op = "pt.NewFrom" -> NeedValid(st, {ev.p}, Ok(SetPt(st, ev.v, PtOf(st, ev.p))))
     [] ev.op = "pt.UncompressedBytes" -> NeedValid(st, {ev.p}, Ok(SetBuf(st, ev.b, EncUncompressedB(PtOf(st, ev.p)))))
     [] ev.op = "pt.CompressedBytes"   -> NeedValid(st, {ev.p}, Ok(SetBuf(st, ev.b, EncCompressedB(PtOf(st, ev.p)))))
     [] ev.op = "pt.XBytes" ->
